@@ -862,17 +862,24 @@ def split_inline_box(context, box, position_x, max_x, bottom_space, skip_stack,
         [box_child for index, box_child, _ in children])
     new_box.remove_decoration(start=not is_start, end=not is_end)
     if isinstance(box, boxes.LineBox):
-        # We must reset line box width according to its new children
+        # We must reset line box position and width according to its new
+        # children
         new_box.width = 0
-        children = new_box.children
-        if new_box.style['direction'] == 'ltr':
-            children = children[::-1]
-        for child in children:
-            if child.is_in_normal_flow():
-                new_box.width = (
-                    child.position_x + child.margin_width() -
-                    new_box.position_x)
-                break
+        in_flow_children = [
+            child for child in new_box.children if child.is_in_normal_flow()]
+        if in_flow_children:
+            if new_box.style['direction'] == 'ltr':
+                first_child, last_child = (
+                    in_flow_children[0], in_flow_children[-1])
+            else:
+                first_child, last_child = (
+                    in_flow_children[-1], in_flow_children[0])
+            # Floats met in the line may have pushed its children, the line
+            # box starts where its first child starts
+            new_box.position_x += first_child.position_x - initial_position_x
+            new_box.width = (
+                last_child.position_x + last_child.margin_width() -
+                new_box.position_x)
     else:
         new_box.position_x = initial_position_x
         if box.style['box_decoration_break'] == 'clone':
